@@ -20,7 +20,7 @@ def build():
         final(w).requests == old(w).requests + 1, //@C07.one_request_per_attempt
         final(w).postops == old(w).postops + 1, //@C07.post_operation_hooks_exactly_once,C10.post_operation_hooks_exactly_once
         // success is reported iff the request succeeded, failure carries the error text
-        final(w).last_postop_success == final(w).last_request_ok, //@C07.reported_status_is_request_outcome,C10.reported_status_is_request_outcome
+        final(w).last_postop_success == final(w).last_request_ok, //@C07.reported_status_is_request_outcome,C10.reported_status_is_request_outcome,C02.reported_status_is_request_outcome,C03.reported_status_is_request_outcome
         final(w).last_request_ok ==> final(w).last_postop_status == "success"@, //@C07.success_text,C10.success_text
         !final(w).last_request_ok ==> final(w).last_postop_status == prefix_spec(final(w).last_request_err, "unable to renew the certificate"@), //@C07.failure_carries_error_text,C10.failure_carries_error_text
         // after a failure at least a second passes before this task is handed back (and re-queued)
